@@ -470,6 +470,9 @@ def preprocess_tree_sequences(
             total_tokens=total_tokens,
             total_documents=len(tree_sequences),
         )
+    else:
+        # work on a copy: the caller's dictionary is neither edited (mask entry) nor handed back
+        token_dictionary = dict(token_dictionary)
 
     # We will prune the edges from any nodes who's labels are to be filtered and
     # reconnect their parents with their children.
@@ -653,6 +656,9 @@ def preprocess_token_sequences(
             total_tokens=total_tokens,
             total_documents=len(token_sequences),
         )
+    else:
+        # work on a copy: the caller's dictionary is neither edited (mask entry) nor handed back
+        token_dictionary = dict(token_dictionary)
 
     if masking is None:
         result_sequences = List()
@@ -833,6 +839,9 @@ def preprocess_timed_token_sequences(
             total_tokens=total_tokens,
             total_documents=len(token_sequences),
         )
+    else:
+        # work on a copy: the caller's dictionary is neither edited (mask entry) nor handed back
+        token_dictionary = dict(token_dictionary)
 
     if masking is None:
         result_sequences = List()
@@ -1017,6 +1026,9 @@ def preprocess_multi_token_sequences(
             total_tokens=total_tokens,
             total_documents=len(token_sequences),
         )
+    else:
+        # work on a copy: the caller's dictionary is neither edited (mask entry) nor handed back
+        token_dictionary = dict(token_dictionary)
 
     if masking is None:
         full_sequence = List()
